@@ -3067,10 +3067,35 @@ theorem convertAll_no_panic (xs : List ApiAttr) : convertAll current xs ≠ .pan
 
 /-- when no consumed / dropped kind is sent, ListPath shows every attribute that was added, and beyond them
     only the mandatory defaults -/
-theorem checkPath_ok (sent : List ApiAttr) (stored : List Attribute) (hr : ∀ x ∈ sent, x.inRange = true)
+theorem wf_emptyAsPath : WF emptyAsPath := by
+  simp [WF, wfClause, emptyAsPath, classOf, flagsOk, binClause, Spec.isBytes, Spec.segments]
+
+theorem convertAll_wf (xs : List ApiAttr) (as : List Attribute) (hr : ∀ x ∈ xs, x.inRange = true)
+    (hc : convertAll current xs = .ok as) (hm : ∀ a ∈ as, modelledCode a.code = true) : ∀ a ∈ as, WF a := by
+  induction xs generalizing as with
+  | nil => simp only [convertAll, Out.ok.injEq] at hc; subst hc; simp
+  | cons x rest ih =>
+      simp only [convertAll] at hc
+      cases hx : fromApi current x with
+      | ok a =>
+          simp only [hx] at hc
+          cases hrest : convertAll current rest with
+          | ok as' =>
+              simp only [hrest, Out.map_ok, Out.ok.injEq] at hc; subst hc
+              intro b hb
+              rcases List.mem_cons.mp hb with rfl | hb
+              · exact (from_api_rt x b (hr x (by simp)) hx (hm b (by simp))).1
+              · exact ih as' (fun z hz => hr z (List.mem_cons_of_mem _ hz)) hrest
+                  (fun c hc' => hm c (List.mem_cons_of_mem _ hc')) b hb
+          | err => simp [hrest, Out.map] at hc
+          | panic => simp [hrest, Out.map] at hc
+      | err => simp [hx] at hc
+      | panic => simp [hx] at hc
+
+theorem checkPath_ok' (sent : List ApiAttr) (stored : List Attribute) (hr : ∀ x ∈ sent, x.inRange = true)
     (hk : ∀ x ∈ sent, kept x) (hl : localPath current sent = .ok stored)
     (hm : ∀ a ∈ stored, modelledCode a.code = true) :
-    ∃ ys, listAttrs current stored = .ok ys ∧ checkPath sent ys = .ok := by
+    ∃ ys, listAttrs current stored = .ok ys ∧ checkPath sent ys = .ok ∧ ∀ a ∈ stored, WF a := by
   unfold localPath at hl
   cases hc : convertAll current sent with
   | err => simp [hc] at hl
@@ -3137,8 +3162,32 @@ theorem checkPath_ok (sent : List ApiAttr) (stored : List Attribute) (hr : ∀ x
           · rw [if_neg h2]
             have := listAttrs_append (as ++ [originIgp]) _ (ys ++ [.origin 0]) _ hlo hp
             exact ⟨[.origin 0, .asPath []], by simpa using this, by simp⟩
+      have hwfS : ∀ a ∈ stored, WF a := by
+        have hwfas := convertAll_wf sent as hr hc hmas
+        subst hl
+        intro a ha
+        by_cases h1 : (as.any fun a => decide (a.code = 1)) = true
+        · rw [if_pos h1] at ha
+          by_cases h2 : (as.any fun a => decide (a.code = 2)) = true
+          · rw [if_pos h2] at ha; exact hwfas a ha
+          · rw [if_neg h2] at ha
+            rcases List.mem_append.mp ha with ha | ha
+            · exact hwfas a ha
+            · simp only [List.mem_singleton] at ha; subst ha; exact wf_emptyAsPath
+        · rw [if_neg h1] at ha
+          by_cases h2 : ((as ++ [originIgp]).any fun a => decide (a.code = 2)) = true
+          · rw [if_pos h2] at ha
+            rcases List.mem_append.mp ha with ha | ha
+            · exact hwfas a ha
+            · simp only [List.mem_singleton] at ha; subst ha; exact wf_originIgp
+          · rw [if_neg h2] at ha
+            rcases List.mem_append.mp ha with ha | ha
+            · rcases List.mem_append.mp ha with ha | ha
+              · exact hwfas a ha
+              · simp only [List.mem_singleton] at ha; subst ha; exact wf_originIgp
+            · simp only [List.mem_singleton] at ha; subst ha; exact wf_emptyAsPath
       obtain ⟨zs, hstored, hzs⟩ := hdef
-      refine ⟨ys ++ zs, hstored, ?_⟩
+      refine ⟨ys ++ zs, hstored, ?_, hwfS⟩
       unfold checkPath
       have hfind : sent.find? (fun x => !((ys ++ zs).any (sameListed x))) = none := by
         rw [List.find?_eq_none]
@@ -3157,6 +3206,43 @@ theorem checkPath_ok (sent : List ApiAttr) (stored : List Attribute) (hr : ∀ x
         · rcases hzs y hy with rfl | rfl <;> simp
       simp [hall]
 
+theorem checkPath_ok (sent : List ApiAttr) (stored : List Attribute) (hr : ∀ x ∈ sent, x.inRange = true)
+    (hk : ∀ x ∈ sent, kept x) (hl : localPath current sent = .ok stored)
+    (hm : ∀ a ∈ stored, modelledCode a.code = true) :
+    ∃ ys, listAttrs current stored = .ok ys ∧ checkPath sent ys = .ok := by
+  obtain ⟨ys, h1, h2, _⟩ := checkPath_ok' sent stored hr hk hl hm
+  exact ⟨ys, h1, h2⟩
+
+/-- `RpkiTable::validate` does not panic on a stored path -/
+theorem rpkiOrigin_ok (stored : List Attribute) (h : ∀ a ∈ stored, WF a) : ∃ o, rpkiOrigin stored = .ok o := by
+  unfold rpkiOrigin
+  cases hf : findCode 2 stored with
+  | none => exact ⟨_, rfl⟩
+  | some p =>
+      obtain ⟨hm, hc⟩ := findCode_some 2 stored p hf
+      obtain ⟨b, hb, _⟩ := wf_aspath p (h p hm) hc
+      obtain ⟨r, hr⟩ := asPathOrigin_ok p (h p hm) hc
+      simp only [hr, Out.bind_ok']
+      cases r with
+      | some asn => exact ⟨_, rfl⟩
+      | none => simp only [Attribute.binary, hb, unwrapO_some, Out.bind_ok']; exact ⟨_, rfl⟩
+
+/-- with no VRP installed, the state shown for an IPv4 / IPv6 route is NotFound (RFC 6811) -/
+theorem rpkiShown_nil (n : Nlri) (sent : List ApiAttr) (stored : List Attribute) (h : ∀ a ∈ stored, WF a) :
+    ∃ v, rpkiShown [] n stored = .ok v ∧ checkRpki (nlriToApi n) sent [] v = .ok := by
+  obtain ⟨o, ho⟩ := rpkiOrigin_ok stored h
+  cases n with
+  | v4 a m =>
+      exact ⟨some .notFound, by simp [rpkiShown, ho, rpkiState], by
+        simp [nlriToApi, checkRpki, rpkiExpected, shownName]⟩
+  | v6 a m =>
+      exact ⟨some .notFound, by simp [rpkiShown, ho, rpkiState], by
+        simp [nlriToApi, checkRpki, shownName]⟩
+  | lv4 ls a m => exact ⟨none, rfl, by simp [nlriToApi, checkRpki]⟩
+  | lv6 ls a m => exact ⟨none, rfl, by simp [nlriToApi, checkRpki]⟩
+  | vpn4 ls rd a m => exact ⟨none, rfl, by simp [nlriToApi, checkRpki]⟩
+  | vpn6 ls rd a m => exact ⟨none, rfl, by simp [nlriToApi, checkRpki]⟩
+
 /-- inputs on which the property is claimed for the code as it is now.
     * `attrWire`: the flags byte is the RFC one for the code.  Any other flags byte (PARTIAL, EXTENDED
       LENGTH on a short value, unused low bits) is stored verbatim by the decoder but not carried by the
@@ -3165,9 +3251,9 @@ theorem checkPath_ok (sent : List ApiAttr) (stored : List Attribute) (hr : ∀ x
     * API cases: the scalar fields are within their protobuf widths.
     * `grpc` (AddPath then ListPath): no attribute that `local_path` consumes or drops is sent
       (NEXT_HOP / raw MP_REACH, ORIGINATOR_ID, CLUSTER_LIST, raw MP_UNREACH) — ListPath does not show
-      them: the open findings `listed-path-lacks-*`; and no VRP is installed (the validation state shown
-      for the path is RFC 6811's and property C12's subject: here it is only cross-checked on the real
-      handlers against `Spec.rpkiExpected`). -/
+      them: the open findings `listed-path-lacks-*`; and no VRP is installed: the state shown is then
+      NotFound (the validation state against VRPs is RFC 6811's and property C12's subject: here it is
+      only cross-checked on the real handlers against `Spec.rpkiExpected`). -/
 def caseOk : Case → Prop
   | .attrWire code flags _ => ∀ f, canonicalFlags code = some f → flags = f
   | .attrApi x => x.inRange = true
@@ -3246,12 +3332,10 @@ theorem check_run_ok (c : Case) (h : caseOk c) : Spec.check c (run current c) = 
               split
               · rename_i hm
                 simp only [List.all_eq_true] at hm
-                obtain ⟨ys, hys, hcp⟩ := checkPath_ok attrs stored hr hk hl hm
-                have hv : rpkiShown [] n stored = .ok none := by
-                  unfold rpkiShown; cases n <;> simp
-                simp only [hys, hv, Spec.check, nlri_listed_same x n hx hst h0, if_true, hcp, seq]
-                unfold checkRpki
-                split <;> simp_all
+                obtain ⟨ys, hys, hcp, hwfs⟩ := checkPath_ok' attrs stored hr hk hl hm
+                obtain ⟨v, hv, hck⟩ := rpkiShown_nil n attrs stored hwfs
+                rw [nlri_listed_same x n hx hst h0] at hck
+                simp only [hys, hv, Spec.check, nlri_listed_same x n hx hst h0, if_true, hcp, seq, hck]
               · rfl
           | err => rfl
           | panic =>
